@@ -64,7 +64,7 @@ static inline void retry_tick()
 
 struct IMap {
     // capabilities: which operations the program generator may use
-    bool can_erase = true, can_extract = true, can_minmax = false;
+    bool can_erase = true, can_extract = true, can_minmax = false, can_update = true;
     char const* upd = "update";         // "update" (payload replaced) or "upsert_keep" (old item kept)
     bool upd_zero = false;              // update() can only insert a default-constructed payload (0)
     virtual ~IMap() {}
@@ -78,18 +78,28 @@ struct IMap {
     virtual bool extract_max( long&, long& ) { return false; }
 };
 
-static std::vector<std::vector<Op>> map_program( Rng& r, int nthreads, int nops, IMap const& m, int maxkeys )
+struct GenCfg {
+    int maxkeys = 5;            // key space is 2..maxkeys keys
+    bool ins_heavy = false;     // mostly inserts (growing tables)
+};
+
+static std::vector<std::vector<Op>> map_program( Rng& r, int nthreads, int nops, IMap const& m, GenCfg const& g )
 {
     std::vector<std::vector<Op>> p( nthreads );
     long v = 1;
-    long nkeys = 2 + long( r.below( maxkeys - 1 ));
+    long nkeys = 2 + long( r.below( g.maxkeys - 1 ));
     unsigned w_ins = 25 + unsigned( r.below( 30 ));
     unsigned w_upd = 10 + unsigned( r.below( 15 ));
+    if ( !m.can_update ) w_upd = 0;
     unsigned w_era = m.can_erase ? 10 + unsigned( r.below( 20 )) : 0;
     unsigned w_ext = m.can_extract ? 5 + unsigned( r.below( 15 )) : 0;
     unsigned w_fnd = 10 + unsigned( r.below( 15 ));
     unsigned w_con = 5 + unsigned( r.below( 10 ));
-    unsigned w_mm = m.can_minmax ? 10 : 0;
+    unsigned w_mm = m.can_minmax ? 10 + unsigned( r.below( 10 )) : 0;
+    if ( g.ins_heavy ) {
+        nkeys = g.maxkeys;
+        w_ins += 60;
+    }
     unsigned total = w_ins + w_upd + w_era + w_ext + w_fnd + w_con + w_mm;
     int budget = 14;
     for ( int t = 0; t < nthreads; ++t ) {
@@ -179,6 +189,7 @@ template <class Base> struct mk_kvtraits<Base, 0, true> : Base { typedef key_les
 template <class L>
 struct SetListML : IMap {
     L l;
+    template <class... A> explicit SetListML( A&&... a ) : l( std::forward<A>( a )... ) {}
     bool insert( long k, long v ) override { return l.insert( kv( k, v )); }
     std::pair<bool, bool> update( long k, long v, bool allow ) override
     {
@@ -201,7 +212,7 @@ template <class L>
 struct SetListIter : IMap {
     L l;
     bool useUpsert;
-    explicit SetListIter( bool ups ) : useUpsert( ups ) {}
+    template <class... A> explicit SetListIter( bool ups, A&&... a ) : l( std::forward<A>( a )... ), useUpsert( ups ) {}
     bool insert( long k, long v ) override { return l.insert( kv( k, v )); }
     std::pair<bool, bool> update( long k, long v, bool allow ) override
     {
@@ -225,7 +236,7 @@ struct SetListIter : IMap {
 template <class L>
 struct SetListNogc : IMap {
     L l;
-    SetListNogc() { can_erase = can_extract = false; upd = "upsert_keep"; }
+    template <class... A> explicit SetListNogc( A&&... a ) : l( std::forward<A>( a )... ) { can_erase = can_extract = false; upd = "upsert_keep"; }
     bool insert( long k, long v ) override { return l.insert( kv( k, v )) != l.end(); }
     std::pair<bool, bool> update( long k, long v, bool allow ) override
     {
@@ -248,6 +259,7 @@ template <class L>
 struct KVListML : IMap {
     L l;
     typedef typename L::value_type value_type;
+    template <class... A> explicit KVListML( A&&... a ) : l( std::forward<A>( a )... ) {}
     bool insert( long k, long v ) override { return l.insert( k, v ); }
     std::pair<bool, bool> update( long k, long v, bool allow ) override
     {
@@ -270,7 +282,7 @@ struct KVListIter : IMap {
     L l;
     bool useUpsert;
     typedef typename L::value_type value_type;
-    explicit KVListIter( bool ups ) : useUpsert( ups ) {}
+    template <class... A> explicit KVListIter( bool ups, A&&... a ) : l( std::forward<A>( a )... ), useUpsert( ups ) {}
     bool insert( long k, long v ) override { return l.insert( k, v ); }
     std::pair<bool, bool> update( long k, long v, bool allow ) override
     {
@@ -293,7 +305,7 @@ struct KVListIter : IMap {
 template <class L>
 struct KVListNogc : IMap {
     L l;
-    KVListNogc() { can_erase = can_extract = false; upd = "upsert_keep"; upd_zero = true; }
+    template <class... A> explicit KVListNogc( A&&... a ) : l( std::forward<A>( a )... ) { can_erase = can_extract = false; upd = "upsert_keep"; upd_zero = true; }
     bool insert( long k, long v ) override { return l.insert( k, v ) != l.end(); }
     std::pair<bool, bool> update( long k, long v, bool allow ) override
     {
@@ -440,7 +452,7 @@ struct Fixture {
             "michael_hp", "michael_dhp", "lazy_hp", "lazy_dhp", "iterable_hp", "iterable_dhp",
             "michael_hp_cmp", "lazy_hp_cmp", "iterable_hp_cmp",
             "michael_hp_cnt", "lazy_hp_cnt", "iterable_hp_cnt",
-            "michael_kv_hp", "lazy_kv_hp", "iterable_kv_hp", "michael_kv_hp_cmp", "michael_kv_hp_cnt", "lazy_kv_hp_cnt",
+            "michael_kv_hp", "lazy_kv_hp", "iterable_kv_hp", "michael_kv_hp_cmp", "lazy_kv_hp_cnt",
             "michael_gpi", "michael_gpb", "lazy_gpi", "lazy_gpb", "michael_kv_gpi", "lazy_kv_gpb",
             "imichael_hp", "ilazy_hp", "iiterable_hp", "imichael_dhp",
             "michael_nogc", "lazy_nogc", "michael_kv_nogc", "lazy_kv_nogc"
@@ -473,7 +485,12 @@ struct Fixture {
         else if ( v == "iterable_hp_cnt" ) m.reset( new SetListIter<CIter<HP, 0, true>>( odd ));
         else if ( v == "michael_kv_hp" ) m.reset( new KVListML<CMichaelKV<HP, 0, false>> );
         else if ( v == "lazy_kv_hp" ) m.reset( new KVListML<CLazyKV<HP, 0, false>> );
-        else if ( v == "iterable_kv_hp" ) m.reset( new KVListIter<CIterKV<HP, 0, false>>( odd ));
+        else if ( v == "iterable_kv_hp" ) m.reset( new KVListIter<CIterKV<HP, 0, false>>( true ));     // upsert( key, val )
+        // Hazard variants, not chosen at random (use --variant): the map forms' update( key, functor ) links a
+        // node with a default-constructed mapped value and calls the functor afterwards, so another thread can
+        // observe payload 0 when an atomic operation lies in between (item counter of MichaelKVList; restoring
+        // the marks in IterableList::link_data).  Documented by libcds as "insert item troubleshooting".
+        else if ( v == "iterable_kv_hp_updfn" ) m.reset( new KVListIter<CIterKV<HP, 0, false>>( false ));
         else if ( v == "michael_kv_hp_cmp" ) m.reset( new KVListML<CMichaelKV<HP, 1, false>> );
         else if ( v == "michael_kv_hp_cnt" ) m.reset( new KVListML<CMichaelKV<HP, 0, true>> );
         else if ( v == "lazy_kv_hp_cnt" ) m.reset( new KVListML<CLazyKV<HP, 0, true>> );
@@ -499,7 +516,7 @@ struct Fixture {
         if ( after ) after();
     }
     std::string spec() const { return "map"; }
-    std::vector<std::vector<Op>> program( Rng& r, int nthreads, int nops ) { return map_program( r, nthreads, nops, *m, 5 ); }
+    std::vector<std::vector<Op>> program( Rng& r, int nthreads, int nops ) { return map_program( r, nthreads, nops, *m, GenCfg()); }
     void thread_begin( int ) { set_quiet( true ); cds::threading::Manager::attachThread(); set_quiet( false ); }
     void thread_end( int ) { set_quiet( true ); cds::threading::Manager::detachThread(); set_quiet( false ); }
     std::vector<long> exec( int, Op const& op ) { return map_exec( *m, op ); }
